@@ -25,7 +25,8 @@ pub enum Value {
     Date { y: i64, m: u8, d: u8, cal: String },
     DateTime { y: i64, m: u8, d: u8, ns: i128, cal: String },
     Time { ns: i128 },
-    YearMonth { y: i64, m: u8, cal: String },
+    /// `ref_day`: the hidden reference day (1 for every string, whatever day the string carried)
+    YearMonth { y: i64, m: u8, ref_day: u8, cal: String },
     MonthDay { m: u8, d: u8, ref_year: i64, cal: String },
     Instant(i128),
     Duration([i128; 10]),
@@ -1017,7 +1018,7 @@ pub fn plain_year_month(s: &str, opts: Opts) -> Ref {
         if !ym_in_range(y, m) {
             return Ref { verdict: Verdict::Reject, labels };
         }
-        return Ref { verdict: Verdict::Accept(Value::YearMonth { y, m, cal: "iso8601".into() }), labels };
+        return Ref { verdict: Verdict::Accept(Value::YearMonth { y, m, ref_day: 1, cal: "iso8601".into() }), labels };
     }
     let Some(iso) = parse_date_time(s, opts) else { return Ref::reject() };
     let mut labels = iso.labels.clone();
@@ -1033,7 +1034,7 @@ pub fn plain_year_month(s: &str, opts: Opts) -> Ref {
     if !ym_in_range(y, m) {
         return Ref { verdict: Verdict::Reject, labels };
     }
-    Ref { verdict: Verdict::Accept(Value::YearMonth { y, m, cal: "iso8601".into() }), labels }
+    Ref { verdict: Verdict::Accept(Value::YearMonth { y, m, ref_day: 1, cal: "iso8601".into() }), labels }
 }
 
 pub fn plain_month_day(s: &str, opts: Opts) -> Ref {
